@@ -1,12 +1,13 @@
 /* C12 - contracts on cocls::scheduler (src/cocls/scheduler.h).
  *
- * Abstract state (under std::mutex _mx): the vector _scheduled as the array view vec_a[0..vec_n) of lib/model_vec_heap.c; an entry is
+ * Abstract state (under std::mutex _mx): the vector _scheduled in the element view of lib/model_vec_heap.c; an entry is
  * (time point, promise, ident); an entry whose promise is empty (owner word 0) is a TOMBSTONE (already cancelled), every other entry is a
  * pending sleep, identified by the future its promise owns.  Heap order w.r.t. the REAL compare_item: the model's pop_heap/push_heap
  * evaluate the translated comparator; the contracts speak about time points only (property statement):
- *     VEC_HI(i):  i < vec_n  ==>  tp(vec_a[0]) <= tp(vec_a[i])            "the first entry carries the earliest time point"
- * "for all entries" = (a) gh_G, an arbitrary-but-fixed position of the FINAL vector, (b) the tracked element, an arbitrary-but-fixed entry
- * of the INITIAL vector (snapshot in the logical variables gh_t_*), followed through every permutation by the model.
+ *     "the first entry carries the earliest time point":   tp(first) <= tp(x) for every entry x
+ * "for every entry" = for the TRACKED entry, an arbitrary-but-fixed entry of the initial vector (snapshot in the logical variables
+ * gh_t_*) that the model follows through every permutation (vec_tin: still inside; VEC_T: where).  remove/get_expired/pop_item only take
+ * entries out, so every entry of the final vector is an entry of the initial one; schedule adds exactly the new entry (VEC_NW).
  * Promise completions are recorded by lib/model_promise.c (value / exception object / dropped), gh_mv_* is the entry the most recent
  * promise was moved out of.  std::mutex = lib/model_mutex.c (pthread primitives).  condition_variable: notify counted, never blocks. */
 
@@ -20,7 +21,7 @@ void *gh_sched_mx;                                            /* logical: addres
 #define SCH_UNLOCKED (gh_lock_depth == 0)
 cv_s64 gh_t_tp; void *gh_t_own; cv_i8 *gh_t_id; cv_i1 gh_t_in0;   /* logical: the tracked entry at function entry                    */
 cv_i64 gh_n0;                                                 /* logical: size at entry                                           */
-cv_s64 gh_mv_tp; void *gh_mv_own; cv_i8 *gh_mv_id;            /* the entry the most recent promise was moved out of (model_promise) */
+/* gh_mv_tp / gh_mv_own / gh_mv_id (lib/model_promise.c): the entry the most recent promise was moved out of */
 unsigned gh_n_notify;                                         /* condition_variable::notify_all() calls                           */
 
 /* ------------------------------------------------------------------ models of the dependencies */
@@ -38,7 +39,7 @@ unsigned gh_n_notify;                                         /* condition_varia
 #ifdef CV_HAS_vec_find_pred
 #define VEC_FIND_PRED(cl, x) vec_find_pred((void *)(cl), x)
 #endif
-#define PR_CONTAINER_RECORD(src) do { if (__CPROVER_same_object(src, vec_s)) { ITEM *pr_it = (ITEM *)((cv_i8 *)(src) - __builtin_offsetof(ITEM, _p)); \
+#define PR_CONTAINER_RECORD(src) do { if (__CPROVER_same_object(src, &vm)) { ITEM *pr_it = (ITEM *)((cv_i8 *)(src) - __builtin_offsetof(ITEM, _p)); \
       gh_mv_tp = IT_TP(pr_it); gh_mv_own = PR_OWN(src); gh_mv_id = IT_ID(pr_it); } } while (0)
 #include "model_vec_heap.c"
 #include "model_promise.c"
@@ -50,19 +51,28 @@ unsigned gh_n_notify;                                         /* condition_varia
 void _ZNSt18condition_variable10notify_allEv(struct S_class_std__condition_variable *cv) { gh_n_notify++; }
 void _ZNSt18condition_variableC1Ev(struct S_class_std__condition_variable *cv) { }
 void _ZNSt18condition_variableD1Ev(struct S_class_std__condition_variable *cv) { }
+/* a suspend point that is destroyed while it still holds coroutines resumes them on the spot (C05/C06); counted */
+unsigned gh_sp_flushed;
+#ifdef CV_HAS_sp_dtor
+void sp_dtor(SP *this_) { if (this_->_count_flag != 0) gh_sp_flushed++; }
+#endif
+#ifdef C12_EXC_PRIMS
+/* libstdc++ make_exception_ptr: allocate, record the dynamic type in the exception header (same place as __cxa_throw in rt_core.c), wrap */
+cv_i8 *__cxa_init_primary_exception(cv_i8 *o, struct S_class_std__type_info *ti, void (*d)(cv_i8 *)) { *(void **)(o - CV_EXC_HDR) = (void *)ti; return o; }
+void _ZNSt15__exception_ptr13exception_ptrC1EPv(struct S_class_std____exception_ptr__exception_ptr *this_, cv_i8 *o) { this_->_M_exception_object = o; }
+void _ZNSt9exceptionD2Ev(struct S_class_std__exception *this_) { }
+#endif
 void _ZSt20__throw_system_errori(cv_i32 e) { __CPROVER_assert(0, "std::mutex::lock failed (system_error)"); __CPROVER_assume(0); }
 
 /* ------------------------------------------------------------------ invariant of the scheduled vector */
-#define VEC_WF      (vec_n < VEC_MAX_N && vec_heap_len == vec_n && vec_tin <= 1 && (vec_tin ==> vec_tpos < vec_n) && VEC_SLOTS_WF && VEC_KNOWN)
-#define VEC_HI(i)   ((i) < vec_n ==> IT_TP(VEC_AT(0)) <= IT_TP(VEC_AT(i)))
-#define VEC_HI_T    (vec_tin ==> VEC_HI(vec_tpos))
-#define TRK_SAME    (vec_tin && vec_tpos < vec_n && IT_TP(VEC_AT(vec_tpos)) == gh_t_tp && IT_OWN(VEC_AT(vec_tpos)) == gh_t_own && IT_ID(VEC_AT(vec_tpos)) == gh_t_id)
+#define VEC_WF      (vec_n < VEC_MAX_N && vec_heap_len == vec_n && vec_tin <= 1 && (vec_tin ==> vec_tpos < vec_n) && vm.bk == 0 && vm.nwin <= 1)
+#define VEC_HI_T    ((vec_tin && vec_tpos != 0) ==> IT_TP(VEC_TOP) <= IT_TP(VEC_T))      /* the first entry is the earliest (at the tracked entry) */
+#define TRK_SAME    (vec_tin && vec_tpos < vec_n && IT_TP(VEC_T) == gh_t_tp && IT_OWN(VEC_T) == gh_t_own && IT_ID(VEC_T) == gh_t_id)
 #define TRK_LIVE0   (gh_t_in0 && gh_t_own != 0)                    /* the tracked entry was a pending sleep at entry */
-#define TRK_PIN     (gh_t_in0 == vec_tin && (vec_tin ==> (gh_t_tp == IT_TP(VEC_AT(vec_tpos)) && gh_t_own == IT_OWN(VEC_AT(vec_tpos)) && gh_t_id == IT_ID(VEC_AT(vec_tpos)))))
+#define TRK_PIN     (gh_t_in0 == vec_tin && (vec_tin ==> (gh_t_tp == IT_TP(VEC_T) && gh_t_own == IT_OWN(VEC_T) && gh_t_id == IT_ID(VEC_T))))
 #define SCH_PRE(this_) (cv_exc_pending == 0 && __CPROVER_is_fresh(this_, sizeof(*this_)) && gh_sched_mx == (void *)&(this_)->_mx && \
-                        VEC_WF && VEC_CANON && VEC_HI(gh_G) && VEC_HI_T && TRK_PIN && gh_n0 == vec_n)
-#define MODEL_ASSIGNS VEC_MODEL_ASSIGNS, gh_mv_tp, gh_mv_own, gh_mv_id, \
-                      gh_pr_n_dropped, gh_pr_n_val, gh_pr_n_exc, gh_W_dropped, gh_W_val, gh_W_exc, gh_W_excobj, gh_pr_last_own, gh_pr_last_excobj, gh_pr_sp_cf, gh_pr_sp_h0
+                        VEC_WF && VEC_HI_T && TRK_PIN && gh_n0 == vec_n)
+#define MODEL_ASSIGNS VEC_MODEL_ASSIGNS, PR_MODEL_ASSIGNS
 #define LOCK_ASSIGNS  gh_lock_held, gh_lock_depth, gh_n_lock, gh_n_unlock
 #define NO_COMPLETION (gh_pr_n_dropped == __CPROVER_old(gh_pr_n_dropped) && gh_pr_n_val == __CPROVER_old(gh_pr_n_val) && gh_pr_n_exc == __CPROVER_old(gh_pr_n_exc))
 
@@ -81,7 +91,7 @@ void sch_pop_item(SCHED *this_)
 __CPROVER_requires(SCH_PRE(this_) && SCH_LOCKED && vec_n > 0)
 __CPROVER_assigns(MODEL_ASSIGNS)
 __CPROVER_ensures(cv_exc_pending == 0 && SCH_LOCKED)
-__CPROVER_ensures(vec_n == gh_n0 - 1 && VEC_WF && VEC_HI(gh_G))                                           /* one entry less, order kept    */
+__CPROVER_ensures(vec_n == gh_n0 - 1 && VEC_WF && VEC_HI_T)                                           /* one entry less, order kept    */
 __CPROVER_ensures((gh_t_in0 && __CPROVER_old(vec_tpos) != 0) ==> TRK_SAME)                                /* every other entry is kept      */
 __CPROVER_ensures((gh_t_in0 && __CPROVER_old(vec_tpos) == 0) ==> !vec_tin)                                /* it is the FIRST one that goes  */
 __CPROVER_ensures((gh_t_in0 && __CPROVER_old(vec_tpos) == 0 && gh_t_own != 0 && gh_t_own == gh_W) ==> gh_W_dropped == __CPROVER_old(gh_W_dropped) + 1)  /* a still-pending one is cancelled by the drop */
@@ -96,22 +106,22 @@ __CPROVER_ensures(gh_pr_n_val == __CPROVER_old(gh_pr_n_val) && gh_pr_n_exc == __
 #define RET_OWN(r)  (*(void **)(r))
 #define GE_POST(ret, now) \
 __CPROVER_ensures(cv_exc_pending == 0) \
-__CPROVER_ensures(VEC_WF && VEC_HI(gh_G) && vec_n <= gh_n0)                                               /* heap order kept, nothing added */ \
+__CPROVER_ensures(VEC_WF && VEC_HI_T && vec_n <= gh_n0)                                               /* heap order kept, nothing added */ \
 __CPROVER_ensures(RET_IDX(ret) <= 1) \
 /* a promise is returned => it is live, its entry's time point is <= now (never early) ... */ \
 __CPROVER_ensures(RET_IDX(ret) == 1 ==> (RET_OWN(ret) != 0 && RET_OWN(ret) == gh_mv_own && gh_mv_tp <= (cv_s64)(now))) \
 /* ... and no pending sleep that remains has an earlier time point (deadline order) */ \
-__CPROVER_ensures((RET_IDX(ret) == 1 && gh_G < vec_n && IT_OWN(VEC_AT(gh_G)) != 0) ==> gh_mv_tp <= IT_TP(VEC_AT(gh_G))) \
+__CPROVER_ensures((RET_IDX(ret) == 1 && vec_tin && IT_OWN(VEC_T) != 0) ==> gh_mv_tp <= IT_TP(VEC_T)) \
 /* a time is returned => it is the earliest time point (max() when nothing is scheduled), it belongs to a pending sleep, and nothing pending is due */ \
 __CPROVER_ensures((RET_IDX(ret) == 0 && vec_n == 0) ==> RET_TIME(ret) == TP_MAX) \
-__CPROVER_ensures((RET_IDX(ret) == 0 && vec_n > 0) ==> (RET_TIME(ret) == IT_TP(VEC_AT(0)) && IT_OWN(VEC_AT(0)) != 0 && RET_TIME(ret) > (cv_s64)(now))) \
-__CPROVER_ensures((RET_IDX(ret) == 0 && gh_G < vec_n) ==> (RET_TIME(ret) <= IT_TP(VEC_AT(gh_G)) && IT_TP(VEC_AT(gh_G)) > (cv_s64)(now))) \
+__CPROVER_ensures((RET_IDX(ret) == 0 && vec_n > 0) ==> (RET_TIME(ret) == IT_TP(VEC_TOP) && IT_OWN(VEC_TOP) != 0 && RET_TIME(ret) > (cv_s64)(now))) \
+__CPROVER_ensures((RET_IDX(ret) == 0 && vec_tin) ==> (RET_TIME(ret) <= IT_TP(VEC_T) && IT_TP(VEC_T) > (cv_s64)(now))) \
 /* every pending sleep: still pending and unchanged, XOR it is the one returned - and then it was due (each exactly once) */ \
 __CPROVER_ensures(TRK_LIVE0 ==> (TRK_SAME || (!vec_tin && RET_IDX(ret) == 1 && RET_OWN(ret) == gh_t_own && gh_t_tp <= (cv_s64)(now)))) \
 __CPROVER_ensures(NO_COMPLETION)                                                                          /* nothing is resolved or dropped here */
 
 #define GE_LOOP_INV \
-  (cv_exc_pending == 0 && SCH_LOCKED && VEC_WF && VEC_CANON && VEC_HI(gh_G) && VEC_HI_T && vec_n <= gh_n0 && (TRK_LIVE0 ==> TRK_SAME))
+  (cv_exc_pending == 0 && SCH_LOCKED && VEC_WF && VEC_HI_T && vec_n <= gh_n0 && (TRK_LIVE0 ==> TRK_SAME))
 #define CV_LOOP_sch_get_expired_lk_0 \
   __CPROVER_assigns(CV_LOOP_LOCALS_sch_get_expired_lk_0, MODEL_ASSIGNS, __CPROVER_object_whole(agg_result)) \
   __CPROVER_loop_invariant(GE_LOOP_INV && now__mem.__d.__r == now_coerce) \
@@ -136,7 +146,7 @@ GE_POST(ret, now)
 
 /* ------------------------------------------------------------------ remove(id) */
 #define RM_LOOP_INV \
-  (cv_exc_pending == 0 && SCH_LOCKED && VEC_WF && VEC_CANON && VEC_HI(gh_G) && VEC_HI_T && vec_n <= gh_n0 && (TRK_LIVE0 ==> TRK_SAME) && gh_n_lock == __CPROVER_loop_entry(gh_n_lock))
+  (cv_exc_pending == 0 && SCH_LOCKED && VEC_WF && VEC_HI_T && vec_n <= gh_n0 && (TRK_LIVE0 ==> TRK_SAME) && gh_n_lock == __CPROVER_loop_entry(gh_n_lock))
 #define CV_LOOP_sch_remove_0 \
   __CPROVER_assigns(CV_LOOP_LOCALS_sch_remove_0, MODEL_ASSIGNS, __CPROVER_object_whole(agg_result)) \
   __CPROVER_loop_invariant(RM_LOOP_INV) \
@@ -146,14 +156,14 @@ void sch_remove(PROM *ret, SCHED *this_, cv_i8 *id)
 __CPROVER_requires(SCH_PRE(this_) && SCH_UNLOCKED && __CPROVER_is_fresh(ret, sizeof(*ret)))
 __CPROVER_assigns(MODEL_ASSIGNS, LOCK_ASSIGNS, __CPROVER_object_whole(ret))
 __CPROVER_ensures(cv_exc_pending == 0 && SCH_UNLOCKED && gh_n_lock == __CPROVER_old(gh_n_lock) + 1)      /* one critical section, lock released */
-__CPROVER_ensures(VEC_WF && VEC_HI(gh_G) && vec_n <= gh_n0)
+__CPROVER_ensures(VEC_WF && VEC_HI_T && vec_n <= gh_n0)
 /* a live promise is returned => the entry it was taken from carried id */
 __CPROVER_ensures(PR_OWN(ret) != 0 ==> (PR_OWN(ret) == gh_mv_own && gh_mv_id == id))
 /* ... and exactly that entry is consumed: every pending sleep is still pending and unchanged, or it is the returned one (then it carried id and is gone or a tombstone) */
 __CPROVER_ensures(TRK_LIVE0 ==> (TRK_SAME || (PR_OWN(ret) == gh_t_own && gh_t_id == id && \
-                     (!vec_tin || (vec_tpos < vec_n && IT_OWN(VEC_AT(vec_tpos)) == 0 && IT_TP(VEC_AT(vec_tpos)) == gh_t_tp && IT_ID(VEC_AT(vec_tpos)) == gh_t_id)))))
+                     (!vec_tin || (vec_tpos < vec_n && IT_OWN(VEC_T) == 0 && IT_TP(VEC_T) == gh_t_tp && IT_ID(VEC_T) == gh_t_id)))))
 /* an empty promise is returned => NO pending sleep carries id (and, by the clause above, nothing changed) */
-__CPROVER_ensures(PR_OWN(ret) == 0 ==> !(gh_G < vec_n && IT_OWN(VEC_AT(gh_G)) != 0 && IT_ID(VEC_AT(gh_G)) == id))
+__CPROVER_ensures((PR_OWN(ret) == 0 && vec_tin && IT_OWN(VEC_T) != 0) ==> IT_ID(VEC_T) != id)
 __CPROVER_ensures(NO_COMPLETION)
 ;
 #endif
@@ -163,11 +173,11 @@ void *gh_p_own; cv_s64 gh_top_tp;
 #ifdef CV_HAS_sch_schedule_U
 void sch_schedule(SCHED *this_, cv_i8 *id, PROM *p, cv_i64 tp)
 __CPROVER_requires(SCH_PRE(this_) && SCH_UNLOCKED && __CPROVER_is_fresh(p, sizeof(*p)) && vec_n < VEC_MAX_N - 1)
-__CPROVER_requires(gh_p_own == PR_OWN(p) && (vec_n > 0 ==> gh_top_tp == IT_TP(VEC_AT(0))))
+__CPROVER_requires(gh_p_own == PR_OWN(p) && (vec_n > 0 ==> gh_top_tp == IT_TP(VEC_TOP)))
 __CPROVER_assigns(MODEL_ASSIGNS, LOCK_ASSIGNS, gh_n_notify, __CPROVER_object_whole(p))
 __CPROVER_ensures(cv_exc_pending == 0 && SCH_UNLOCKED && gh_n_lock == __CPROVER_old(gh_n_lock) + 1)
-__CPROVER_ensures(vec_n == gh_n0 + 1 && VEC_WF && VEC_HI(gh_G))                                           /* one entry more, the first is still the earliest */
-__CPROVER_ensures(vec_lastpos < vec_n && IT_TP(VEC_AT(vec_lastpos)) == (cv_s64)tp && IT_OWN(VEC_AT(vec_lastpos)) == gh_p_own && IT_ID(VEC_AT(vec_lastpos)) == id)  /* the new entry is in, unaltered */
+__CPROVER_ensures(vec_n == gh_n0 + 1 && VEC_WF && VEC_HI_T)                                           /* one entry more, the first is still the earliest */
+__CPROVER_ensures(vm.nwin && vec_lastpos < vec_n && IT_TP(VEC_NW) == (cv_s64)tp && IT_OWN(VEC_NW) == gh_p_own && IT_ID(VEC_NW) == id && IT_TP(VEC_TOP) <= IT_TP(VEC_NW))  /* the new entry is in, unaltered */
 __CPROVER_ensures(PR_OWN(p) == 0)                                                                         /* the promise now lives in the entry only */
 __CPROVER_ensures(gh_t_in0 ==> TRK_SAME)                                                                  /* every old entry is kept unaltered */
 __CPROVER_ensures((gh_n0 == 0 || (cv_s64)tp < gh_top_tp) ==> gh_n_notify == __CPROVER_old(gh_n_notify) + 1)   /* new earliest deadline => the worker is woken to re-arm its wait */
@@ -186,7 +196,7 @@ void sch_remove(PROM *ret, SCHED *this_, cv_i8 *id) {
 void sch_cancel_e(SPB *ret, SCHED *this_, cv_i8 *id, EPTR *e)
 __CPROVER_requires(cv_exc_pending == 0 && __CPROVER_is_fresh(this_, sizeof(*this_)) && __CPROVER_is_fresh(ret, sizeof(*ret)) && __CPROVER_is_fresh(e, sizeof(*e)))
 __CPROVER_requires(gh_fw_calls == 0 && gh_lock_depth == 0 && gh_e_obj == e->_M_exception_object && gh_sp_flushed == 0)
-__CPROVER_assigns(__CPROVER_object_whole(ret), gh_fw_calls, gh_fw_this, gh_fw_id, gh_sp_flushed, gh_pr_n_dropped, gh_pr_n_val, gh_pr_n_exc, gh_W_dropped, gh_W_val, gh_W_exc, gh_W_excobj, gh_pr_last_own, gh_pr_last_excobj, gh_pr_sp_cf, gh_pr_sp_h0)
+__CPROVER_assigns(__CPROVER_object_whole(ret), gh_fw_calls, gh_fw_this, gh_fw_id, gh_sp_flushed, PR_MODEL_ASSIGNS)
 __CPROVER_ensures(cv_exc_pending == 0 && gh_lock_depth == 0)
 __CPROVER_ensures(gh_fw_calls == 1 && gh_fw_this == this_ && gh_fw_id == id)                               /* exactly one remove(id)           */
 /* something was pending under id: exactly that future is resolved, once, with exactly e; true is reported; the awaiting coroutine is handed to the caller */
@@ -225,7 +235,7 @@ void sch_schedule(SCHED *this_, cv_i8 *id, PROM *p, cv_i64 tp) {
   if (nondet_bool()) PR_OWN(p) = 0; }                                       /* schedule() moves the promise into its entry */
 void sch_sleep_until(FUT *ret, SCHED *this_, cv_i64 tp, cv_i8 *id)
 __CPROVER_requires(cv_exc_pending == 0 && __CPROVER_is_fresh(this_, sizeof(*this_)) && __CPROVER_is_fresh(ret, sizeof(*ret)) && gh_fw_calls == 0)
-__CPROVER_assigns(__CPROVER_object_whole(ret), gh_fw_calls, gh_fw_this, gh_fw_id, gh_fw_own, gh_fw_tp, gh_pr_n_dropped, gh_W_dropped)
+__CPROVER_assigns(__CPROVER_object_whole(ret), gh_fw_calls, gh_fw_this, gh_fw_id, gh_fw_own, gh_fw_tp, PR_MODEL_ASSIGNS)
 __CPROVER_ensures(cv_exc_pending == 0)
 __CPROVER_ensures(gh_fw_calls == 1 && gh_fw_this == this_ && gh_fw_id == id && gh_fw_tp == (cv_s64)tp)    /* scheduled exactly once, for exactly (tp, id) */
 __CPROVER_ensures(gh_fw_own == (void *)ret)                                                                /* ... with the promise of the returned future */
@@ -257,7 +267,7 @@ cv_i1 ss_request_stop(struct S_class_std__stop_source *s) { gh_stop_at = ++gh_se
 void fut_wait(FUT *f) { gh_wait_at = ++gh_seq; }
 void sch_dtor(SCHED *this_)
 __CPROVER_requires(cv_exc_pending == 0 && __CPROVER_is_fresh(this_, sizeof(*this_)) && gh_sched_mx == (void *)&(this_)->_mx && SCH_UNLOCKED)
-__CPROVER_requires(VEC_WF && VEC_CANON && TRK_PIN && gh_engaged <= 1 && gh_seq == 0 && gh_stop_at == 0 && gh_wait_at == 0 && gh_optd_at == 0 && gh_vec_dtor == 0 && gh_W == gh_t_own)
+__CPROVER_requires(VEC_WF && TRK_PIN && gh_engaged <= 1 && gh_seq == 0 && gh_stop_at == 0 && gh_wait_at == 0 && gh_optd_at == 0 && gh_vec_dtor == 0 && gh_W == gh_t_own)
 __CPROVER_assigns(MODEL_ASSIGNS, gh_seq, gh_stop_at, gh_wait_at, gh_optd_at, gh_vec_dtor)
 __CPROVER_ensures(cv_exc_pending == 0 && SCH_UNLOCKED)
 __CPROVER_ensures(gh_engaged ==> (gh_stop_at == 1 && gh_wait_at == 2))                                     /* worker: stop requested, then joined, before anything is torn down */
